@@ -197,6 +197,35 @@ theorem C09_abort_carries_cause :
     simp [readRes, h2, h3'] at this
     exact this
 
+/-- **(g) The terminal read error is sticky.** Once `readLoop` has unregistered the streams with its close error, no step
+of any process and no event of the environment — in particular no read deadline that was armed earlier and expires only
+now (`envDeadline`), while no read is blocked — changes what a read on any stream returns (the close error, or EOF for a
+stream the peer had reset), and no stream ever loses its terminal error (`lost = []`); so a reader that comes back later,
+whatever deadline it sets first, gets that error at once (`C09_no_stuck_state`). Tie: the helper goroutine of
+`SetReadDeadline` stores the deadline error only `if s.readErr == nil` (`Choreo.dlKeepsTerminal`, read off `Gen.lockEvents`). -/
+theorem C09_terminal_error_sticky (s s' : St) (a : Act) (hr : Reachable s) (hu : s.unreg = true)
+    (h : step choreoOfFacts s a = some s') :
+    s'.unreg = true ∧ s'.lost = [] ∧ ∀ sid, readRes s' sid = readRes s sid := by
+  rw [C09_choreography_matches_code] at h
+  obtain ⟨h1, h2, h3, h4⟩ := terminal_sticky s s' a (reachable_inv hr) hu h
+  exact ⟨h1, h4, fun sid => by simp [readRes, h2, h3]⟩
+
+def idleDeadlineRun (ch : Choreo) : Option St :=
+  (run ch { fuel := 9, callers := [.idle (.rd 1)] }
+    [.envPacket (.hsFinal false), .rlHandle, .rlCH 0, .envPacket (.abort "why"), .rlHandle]).map fun s =>
+  let t := runGreedy ch 40 s                        -- the teardown runs to its end; nobody is reading
+  match run ch t [.envDeadline 1, .envStart 0] with -- the old deadline expires; the application reads again
+  | some u => runGreedy ch 5 u
+  | none => t
+
+/-- a deadline armed while nobody reads, peer ABORT, late expiry, then a read: it returns the abort cause … -/
+example : ((idleDeadlineRun Choreo.expected).map fun t => (t.done, t.callers)) =
+    some (true, [.fin (.rd 1) (.err (.abort "why"))]) := by decide
+
+/-- … and if the helper stored the deadline error unconditionally, the reader would be parked for ever -/
+example : ((idleDeadlineRun { Choreo.expected with dlKeepsTerminal := false }).map fun t =>
+    (t.stuck { Choreo.expected with dlKeepsTerminal := false }, t.callers)) = some (true, [.rdWait 1 true]) := by decide
+
 /-! ## non-vacuity, and what the tie buys -/
 
 /-- the context-cancel scenario: the client's context is cancelled while the COOKIE-ACK is being processed (the handler
